@@ -68,7 +68,7 @@ def world(ctx, n, with_vanish=False, names=False):
 
 
 @harness("C05.children", quick=[dict(n=n, recursive=r) for n in (1, 2, 3) for r in (False, True)] + [dict(n=2, recursive=r, names=True) for r in (False, True)],
-         thorough=[dict(n=n, recursive=r) for n in (1, 2, 3, 4, 5, 6) for r in (False, True)] + [dict(n=n, recursive=r, names=True) for n in (2, 3) for r in (False, True)])
+         thorough=[dict(n=n, recursive=r) for n in (1, 2, 3, 4, 5) for r in (False, True)] + [dict(n=n, recursive=r, names=True) for n in (2, 3) for r in (False, True)])
 def children(ctx, n, recursive, names=False):
     k, pids, pp, st = world(ctx, n, names=names)
     caller = pids[0]
